@@ -12,6 +12,9 @@ import UVerif.Driver.Sqrt
 
 import UVerif.Driver.Cfloat
 
+import UVerif.Driver.Lns
+import UVerif.Driver.Areal
+
 namespace UVerif.Driver
 
 /-- family name ↦ handler. One line per family. -/
@@ -35,6 +38,8 @@ def lookupHandler (fam : String) : Option Handler :=
   | "fast" => some fastHandler
   | "sqrt" => some sqrtHandler
   | "cfloat" => some cfloatHandler
+  | "lns" => some lnsHandler
+  | "areal" => some arealHandler
   | _ => none
 
 end UVerif.Driver
